@@ -35,7 +35,14 @@ RULE = ('one case = one history of 20-200 operations on one interpreter whose ca
         'iterate handlers for a class, one of its bases or subclasses, or an unrelated class between the calls '
         '(type-directed: a lookup, a registration of a related type in the same registry, the same lookup again); '
         'observed: the tag of the handler that ran per (exact type, op), replayed through the memo model per registry, '
-        'and the outcome of the same call in a freshly built Glommer given the same registrations in the same order. '
+        'and the outcome of the same call in a freshly built Glommer given the same registrations in the same order; '
+        '(c) wildcard specs over those instances ("*", "k.*", ["*"], "*.*", "**" as text and as T.__star__() / '
+        'T.__starstar__(); roots of the hierarchy are slotted (no __dict__: children by iterate) or plain (children by '
+        'keys + get)), with registrations of tagged keys / get / iterate handlers for the traversed class or a base in the '
+        'same registry between two traversals (type-directed on the lookups _extend_children makes); observed per '
+        'expanded instance: how the result shows its children were reached (keys+get / iterate / none) and the tagged '
+        'handlers that ran, replayed as the strategy starStrategy through the memo model and against the uncached '
+        'TReg.compute (refStar). '
         'non-trivial = history has a repeat of a call after a cache-changing operation; distinct = distinct op sequences')
 TRUSTED = ['the uncached handler lookup is modelled as "nearest type of the MRO with a handler" (real subclasses only; the '
            'type-tree walk, virtual subclasses and exact= are C13\'s subject)']
@@ -51,7 +58,12 @@ MANIFEST = dict(
           "PATH_STAR toggles and registrations each call's outcome equals the cache-free reference (c06_history, "
           "c06_after_any_calls). Per-run facts obligation (decide) on the regenerated shape of from_text / get_handler / "
           "register; correspondence replays whole histories through the compiled model comparing returned paths and both "
-          "cache sizes after every operation, plus fresh-interpreter outcomes and before/after snapshots."),
+          "cache sizes after every operation, plus fresh-interpreter outcomes and before/after snapshots. Wildcard "
+          "traversals ('*' / '**') are the adaptive strategy starStrategy (keys, then get, else iterate, per visited item): "
+          "c06_star_pure / c06_star_any_history / c06_star_register_star show that after any history the children of "
+          "every item are reached by the handlers the registrations in force give; the facts obligation also requires "
+          "that no function of glom keeps a handler obtained from get_handler outside the memo that register() resets "
+          "(handlerStoredOutsideMemo = [], memoTouchedOutsideRegistry = []) and accepts either reset form."),
     note=("partial: the 'inputs untouched' half is observed by snapshots and holds by construction in the immutable-value "
           "interpreter model; no heap-level frame theorem. trusted: Lean kernel + {propext, Classical.choice, Quot.sound}; "
           "extractor; harness/driver; a call interacts with shared library state only through the two caches (that "
@@ -198,6 +210,20 @@ def build06(j, fns):
         return {B(a): B(b) for a, b in j['es']}
     if k == 'sBind':
         return glom.S(**OrderedDict((n, B(v)) for n, v in j['bs']))
+    if k == 'tstar':                       # T with item / attribute steps and wildcards: T['k'].__star__() …
+        t = glom.T
+        for st in j['steps']:
+            if st[0] == 'x':
+                t = t.__star__()
+            elif st[0] == 'X':
+                t = t.__starstar__()
+            elif st[0] == '[':
+                t = t[st[1]]
+            else:
+                t = getattr(t, st[1])
+        return t
+    if k == 'list':
+        return [B(x) for x in j['xs']]
     return ic.build(j, fns)
 
 
@@ -216,7 +242,10 @@ def _mk_classes(descs):
 
         def __repr__(self):
             return '<%s>' % type(self).__name__
-        out.append(type(d['name'], bases, {'__init__': __init__, '__iter__': __iter__, '__repr__': __repr__}))
+        ns = {'__init__': __init__, '__iter__': __iter__, '__repr__': __repr__, '_c06_generated': True}
+        if d.get('slots'):                 # no __dict__: '*' reaches the children by iteration, not by keys
+            ns['__slots__'] = ('name', 'items') if not d['bases'] else ()
+        out.append(type(d['name'], bases, ns))
     return out
 
 
@@ -233,15 +262,57 @@ def gen_classes(rng):
                 second = rng.randrange(i)
                 if second != first:
                     bases.append(second)
-        d = {'name': 'K%d' % i, 'bases': bases}
+        # a root is slotted (its instances have no __dict__) or not; a subclass follows its first base, and
+        # its bases all agree (an unslotted base next to a slotted one would add an empty __dict__)
+        if bases:
+            slots = descs[bases[0]]['slots']
+            bases = [b for b in bases if descs[b]['slots'] == slots]
+        else:
+            slots = rng.random() < 0.4
+        d = {'name': 'K%d' % i, 'bases': bases, 'slots': slots}
         try:
             _mk_classes(descs + [d])
-        except TypeError:                 # no consistent MRO for this order of bases
+        except TypeError:                 # no consistent MRO / instance layout for these bases
             d['bases'] = bases[:1]
         descs.append(d)
     for d, c in zip(descs, _mk_classes(descs)):
         d['mro'] = [x.__name__ for x in c.__mro__]
+        d['dict'] = hasattr(c(), '__dict__')          # as Python has it: the built-in `keys` handler needs one
     return descs
+
+
+def star_entry(rng, classes):
+    """a wildcard spec ('*', 'k.*', ['*'], '*.*', '**', T.__star__() …) over instances of the generated
+    classes; `star` = the exact types of the generated-class instances the traversal expands, in order
+    (the other visited items are built-in containers and atoms, whose handlers no generated registration
+    changes); `star_mode` = how the result shows the children of each of them"""
+    i = rng.randrange(len(classes))
+    n = classes[i]['name']
+    use_t = rng.random() < 0.5                         # T.__star__() (always a wildcard) or text (when PATH_STAR)
+    p = rng.random()
+
+    def spec(steps):
+        if use_t:
+            return {'k': 'tstar', 'steps': steps}
+        return {'k': 'str', 's': '.'.join({'x': '*', 'X': '**'}.get(st[0], st[-1]) for st in steps)}
+    if p < 0.3:
+        e = {'otarget': {'inst': i}, 'spec': spec([['x']]), 'star': [n], 'star_mode': 'children'}
+    elif p < 0.45:
+        e = {'otarget': {'d': [[{'s': 'k'}, {'inst': i}]]}, 'spec': spec([['[', 'k'], ['x']]), 'star': [n],
+             'star_mode': 'children'}
+    elif p < 0.7:
+        js = [i] + [rng.randrange(len(classes)) for _ in range(rng.randint(0, 2))]
+        sp = spec([['x'], ['x']]) if rng.random() < 0.5 else {'k': 'list', 'xs': [spec([['x']])]}
+        e = {'otarget': {'l': [{'inst': x} for x in js]}, 'spec': sp, 'star': [classes[x]['name'] for x in js],
+             'star_mode': 'rows'}
+    else:
+        q = rng.random()
+        js = [i] + ([rng.randrange(len(classes)) for _ in range(rng.randint(0, 2))] if q < 0.4 else [])
+        t = {'l': [{'inst': x} for x in js]} if q < 0.4 else \
+            ({'d': [[{'s': 'k'}, {'inst': i}]]} if q < 0.6 else {'inst': i})
+        e = {'otarget': t, 'spec': spec([['X']]), 'star': [classes[x]['name'] for x in js], 'star_mode': 'log'}
+    e['star_text'] = not use_t
+    return e
 
 
 def obj_entry(rng, classes):
@@ -281,6 +352,10 @@ def tagged(op, tag):
         def h(o, n):
             ic.LOG.append({'handler': tag, 'op': 'get', 'type': type(o).__name__})
             return [tag, getattr(o, n)]
+    elif op == 'keys':
+        def h(o):
+            ic.LOG.append({'handler': tag, 'op': 'keys', 'type': type(o).__name__})
+            return ['items', 'name']                  # not the order of the instance dict
     else:
         def h(o):
             ic.LOG.append({'handler': tag, 'op': 'iterate', 'type': type(o).__name__})
@@ -333,11 +408,20 @@ def reg_op(rng, classes, reg, cls, counter):
         if lo <= p < hi:
             counter[0] += 1
             kw.append([op, 'h%d' % counter[0]])
+    if rng.random() < 0.3:
+        counter[0] += 1
+        kw.append(['keys', 'h%d' % counter[0]])
     return {'op': 'register', 'reg': reg, 'cls': classes[cls]['name'], 'kw': kw}
 
 
+def star_ops(classes, ty):
+    """the handlers a wildcard traversal can use for an instance of class `ty`"""
+    c = next(c for c in classes if c['name'] == ty)
+    return ['keys', 'get'] if c.get('dict', True) else ['keys', 'iterate', 'iterate']
+
+
 def generate(rng, tier, scale, **focus):
-    n = (24 if tier == 'quick' else 300) * scale
+    n = (28 if tier == 'quick' else 300) * scale
     for i in range(n):
         pl = pool(rng)
         g = Gen(rng, {'extra': []})
@@ -345,7 +429,7 @@ def generate(rng, tier, scale, **focus):
         n_regs = 1 + rng.randint(0, 2)                 # registry 0 = module-level, the others are Glommers
         holders = [holder_entry(rng, g) for _ in range(3)] + [binder_entry(rng) for _ in range(2)] + \
             [argshape_entry(rng) for _ in range(2)]
-        objs = [obj_entry(rng, classes) for _ in range(4)]
+        objs = [star_entry(rng, classes) if rng.random() < 0.45 else obj_entry(rng, classes) for _ in range(5)]
         names = PY_NAMES
         entries = [{'target': t, 'spec': s} for t, s in pl] + [{'py': nm} for nm in names] + holders + objs
         i_py, i_hold, i_obj = len(pl), len(pl) + len(names), len(pl) + len(names) + len(holders)
@@ -388,7 +472,9 @@ def generate(rng, tier, scale, **focus):
         # type-directed: a lookup, a registration of a related type in the same registry, the same lookup
         for _ in range(rng.randint(0, 3)):
             e = rng.randrange(len(objs))
-            ty, opname = rng.choice(objs[e]['lookups'])
+            # (a wildcard entry: one of the lookups `_extend_children` makes for one of the visited types)
+            ty, opname = rng.choice(objs[e].get('lookups') or
+                                    [[t, o] for t in objs[e]['star'] for o in star_ops(classes, t)])
             ci = next(k for k, c in enumerate(classes) if c['name'] == ty)
             reg = rng.randrange(n_regs)
             r = reg_op(rng, classes, reg, related(rng, classes, ci), counter)
@@ -487,6 +573,63 @@ def deep_snapshot(obj, seen=None):
     return (tn, id(obj), [(n, deep_snapshot(attrs[n], seen)) for n in sorted(attrs)])
 
 
+def enc_o(v):
+    """interp_common.enc + instances of the generated classes (by class name: '**' returns the visited objects)"""
+    if type(v) in (list, tuple):
+        return {'l' if type(v) is list else 't': [enc_o(x) for x in v]}
+    if type(v) is dict:
+        return {'d': [[enc_o(k), enc_o(x)] for k, x in v.items()]}
+    if getattr(type(v), '_c06_generated', False):
+        return {'inst': type(v).__name__}
+    return ic.enc(v)
+
+
+def star_observation(entry, oc):
+    """per expanded instance: [exact type, how the result shows its children were reached, tagged handlers
+    that ran for it (from the log, in the order keys / get / iterate)]"""
+    ran = {}
+    for l in oc['log']:
+        if 'handler' in l:
+            ran.setdefault(l['type'], {})[l['op']] = l['handler']
+    mode = entry['star_mode']
+    res = oc['ok']
+    groups = None
+    if mode == 'children':
+        groups = [res]
+    elif mode == 'rows':
+        groups = res.get('l') if isinstance(res, dict) else None
+        if groups is None or len(groups) != len(entry['star']):
+            groups = [None] * len(entry['star'])
+    out = []
+    for k, ty in enumerate(entry['star']):
+        tg = [[o, ran[ty][o]] for o in ('keys', 'get', 'iterate') if o in ran.get(ty, {})]
+        out.append([ty, 'log' if groups is None else children_mode(ty, groups[k]), tg])
+    return out
+
+
+def children_mode(ty, enc):
+    """'kg': the values of the attributes name / items (as they are, or wrapped by a tagged get handler);
+    'it': the items (as they are, or wrapped by a tagged iterate handler); 'none': no children"""
+    if not isinstance(enc, dict) or 'l' not in enc:
+        return '?'
+    xs = enc['l']
+
+    def unwrap(x):
+        if isinstance(x, dict) and 'l' in x and len(x['l']) == 2 and isinstance(x['l'][0], dict) \
+                and str(x['l'][0].get('s', '')).startswith('h'):
+            return x['l'][1]
+        return x
+    us = [unwrap(x) for x in xs]
+    name_v, items_v = {'s': 'v' + ty}, {'l': [{'i': 1}, {'i': 2}]}
+    if not xs:
+        return 'none'
+    if us == [{'i': 1}, {'i': 2}]:
+        return 'it'
+    if us in ([name_v, items_v], [items_v, name_v]):
+        return 'kg'
+    return '?'
+
+
 def outcome(target, spec, star, call=None, scope=None, path=None):
     import glom
     import glom.core as gc
@@ -501,7 +644,10 @@ def outcome(target, spec, star, call=None, scope=None, path=None):
         with warnings.catch_warnings():
             warnings.simplefilter('ignore')
             res = (call or glom.glom)(target, spec, **kw)
-        out = {'ok': ic.enc(res)}
+        try:
+            out = {'ok': ic.enc(res)}
+        except ValueError:
+            out = {'ok': enc_o(res)}
     except Exception as e:
         out = {'err': ic.exc_name(e)}
     out['log'] = list(ic.LOG)
@@ -669,6 +815,8 @@ def run_impl(case):
                 if 'lookups' in entry and 'tidx' not in op and 'ok' in oc:
                     ran = {(l['type'], l['op']): l['handler'] for l in oc['log'] if 'handler' in l}
                     o['impl_lookups'] = [[ty, opn, ran.get((ty, opn), 'default')] for ty, opn in entry['lookups']]
+                if 'star' in entry and 'tidx' not in op and 'ok' in oc and (gc.PATH_STAR or not entry['star_text']):
+                    o['impl_star'] = star_observation(entry, oc)
                 vo = vars_observation(entry, 'e%d' % op['idx'], t, oc)
                 if vo is not None:
                     o['vars'] = vo
